@@ -391,6 +391,17 @@ func c16(c *Ctx) {
 		"non-trivial = the plugin child process was executed under the 4 GiB (mock runs: 2 GiB) address-space cap and watchdog, and exit status, stderr, stdout framing, maxrss and wall time were inspected"
 	c.R.Assume("bounded progress: a run that does not finish within the watchdog (30s, >1000x the typical 20ms) is first re-run alone with 4x the limit; only then it counts as non-termination")
 	shapes := descriptorShapes()
+	// the shared annotation corpus (every feature package, routing, header, enum-rule and multi-file
+	// case the other properties run) also counts as descriptor shapes: each plugin must answer for it
+	{
+		every := 1
+		if !c.Thorough() {
+			every = 4
+		}
+		for _, rc := range l1Corpus(c, "c16l", every) {
+			shapes = append(shapes, shapeCase{ID: "l1/" + rc.ID, Files: rc.Files, Gen: rc.Gen})
+		}
+	}
 	type job struct {
 		sc    shapeCase
 		p     string
@@ -437,7 +448,7 @@ func c16(c *Ctx) {
 				}
 			}
 			// the same shapes on a single-CPU runner (structural shapes; the text catalogue varies strings only)
-			if !strings.HasPrefix(sc.ID, "text/") && !strings.HasPrefix(sc.ID, "misuse/") && !sc.Heavy {
+			if !strings.HasPrefix(sc.ID, "text/") && !strings.HasPrefix(sc.ID, "misuse/") && !strings.HasPrefix(sc.ID, "l1/") && !sc.Heavy {
 				pa := ""
 				if sc.ID == "no-go-package" {
 					pa = params[0]
